@@ -133,7 +133,7 @@ class Monitor(object):
                     # When ast.parse raises a SyntaxError the interpreter looks for the source line of the *filename argument*;
                     # python_minifier passes fixed pseudo file names there (not input content).
                     if not (p.endswith(('.py', '.pyc', '.so', '.pth')) or '__pycache__' in p or p.startswith(('/proc/', '/usr/lib', '/root/.pyenv'))
-                            or p in PSEUDO_FILENAMES):
+                            or p in PSEUDO_FILENAMES or (p.startswith('<') and p.endswith('>'))):
                         mon.events.append({'kind': 'audit:open', 'text': _short(p)})
                 elif event == 'exec':
                     code = args[0]
